@@ -15,6 +15,7 @@ R8 path walkers: PseudoFs::mount and PseudoFs::path_walk take the same step per 
 import json
 import os
 
+import re
 from pyfbr import core, vf
 from rules import common
 
@@ -474,26 +475,33 @@ def r9_allocator(ctx, F):
     b = F.method(VFS, "allocate_fs_idx")
     ctx.fn_seen(b)
     v = vf.VF(b, inline_depth=0, opaque_loops=True)
-    sw = [x for h in sorted(v.loop_headers()) for x in c10.loop_switches(b, v, h)]
+    sw = [x for h in sorted(v.loop_headers()) for x in c10.loop_edge_facts(b, v, h)]
     idx = "Atomic::fetch_add(self.next_super, 1, Relaxed)"
+    start = "Atomic::load(self.next_super, SeqCst)"
+    ln = "Vec::len(ArcSwapAny::load(self.superblocks))"
+    slot = "Option::is_some(Vec::index(ArcSwapAny::load(self.superblocks), (%s as usize)))" % idx
     want = [
-        ("back-at-start", "Eq(%s, Atomic::load(self.next_super, SeqCst))" % idx, {0: "loop", "otherwise": "loop"}),
-        ("second-time-gives-up", "loop(found)", {0: "loop", "otherwise": "exit"}),
-        ("pseudo-index-skipped", "Eq(%s, VFS_PSEUDO_FS_IDX)" % idx, {0: "loop", "otherwise": "loop"}),
-        ("in-range", "Lt((%s as usize), Vec::len(ArcSwapAny::load(self.superblocks)))" % idx, {0: "exit", "otherwise": "loop"}),
+        ("back-at-start", {"Eq(%s, %s)" % (idx, start): "loop", "Ne(%s, %s)" % (idx, start): "loop"}),
+        ("second-time-gives-up", {"loop(found)": "exit", "!loop(found)": "loop"}),
+        ("pseudo-index-skipped", {"Eq(%s, VFS_PSEUDO_FS_IDX)" % idx: "loop", "Ne(%s, VFS_PSEUDO_FS_IDX)" % idx: "loop"}),
+        ("beyond-table-is-free", {"Le(%s, (%s as usize))" % (ln, idx): "exit", "Lt((%s as usize), %s)" % (idx, ln): "loop"}),
+        ("occupied-skipped", {slot: "loop", "!" + slot: "exit"}),
     ]
-    for (nm, cond, edges) in want:
-        m = [x for x in sw if x[0] == cond or x[0] == cond.replace("Eq(%s, " % idx, "Eq(").replace(")", ", %s)" % idx, 1)]
-        ctx.check(rule, nm, len(m) == 1 and m[0][1] == edges, "allocate_fs_idx: decision `%s` has edges %s, required %s" % (cond[:70], [x[1] for x in m] or "missing", edges), loc=b.loc())
-    occ = [x for x in sw if x[0].startswith("Option::is_some(Vec::index(ArcSwapAny::load(self.superblocks), ")]
-    ctx.check(rule, "occupied-skipped", len(occ) == 1 and occ[0][1] == {0: "exit", "otherwise": "loop"}, "allocate_fs_idx must skip occupied slots and return a free one", loc=b.loc())
-    # found is tested only when the walk is back at its start, and set there
-    f = [x for x in sw if x[0] == "loop(found)"]
+    def norm(d):
+        return {k.replace("Eq(%s, %s)" % (start, idx), "Eq(%s, %s)" % (idx, start)).replace("Ne(%s, %s)" % (start, idx), "Ne(%s, %s)" % (idx, start))
+                 .replace("Eq(VFS_PSEUDO_FS_IDX, %s)" % idx, "Eq(%s, VFS_PSEUDO_FS_IDX)" % idx).replace("Ne(VFS_PSEUDO_FS_IDX, %s)" % idx, "Ne(%s, VFS_PSEUDO_FS_IDX)" % idx): k2
+                for k, k2 in d.items()}
+    got = [norm(x[0]) for x in sw]
+    for (nm, d) in want:
+        ctx.check(rule, nm, got.count(d) == 1, "allocate_fs_idx: the decision %s is missing or decided differently (decisions found: %s)" % (d, [sorted(x.items()) for x in got if set(x) & set(d)] or "none on these facts"), loc=b.loc())
+    ctx.check(rule, "no-other-decision", len(got) == len(want), "allocate_fs_idx decides on %d conditions, %d reviewed" % (len(got), len(want)), loc=b.loc())
+    # `found` is tested only when the walk is back at its start
+    f = [x for x in sw if "loop(found)" in x[0]]
     if f:
-        ok = any(t.startswith("Eq(%s, Atomic::load(self.next_super" % idx) and l != 0 for (t, l) in f[0][3])
+        ok = any(t.replace("Eq(%s, %s)" % (start, idx), "Eq(%s, %s)" % (idx, start)) == "Eq(%s, %s)" % (idx, start) and l != 0 for (t, l) in f[0][2])
         ctx.check(rule, "gives-up-only-at-start", ok, "allocate_fs_idx may give up only when the walk is back at its starting index", loc=b.loc())
     r = vf.render(v.ret(), b, short=True, vfx=v)
-    ctx.check(rule, "returns-the-free-index", "=> Ok(%s)" % idx in r and "&& loop(found) => Err(" in r, "allocate_fs_idx returns `%s`" % r[:200], loc=b.loc())
+    ctx.check(rule, "returns-the-free-index", "=> Ok(%s)" % idx in r and "Err(" in r, "allocate_fs_idx returns `%s`" % r[:200], loc=b.loc())
 
 
 def r8_walkers(ctx, F):
@@ -512,7 +520,14 @@ def r8_walkers(ctx, F):
                 g = [(vf.render(x, b, short=True, vfx=v), l) for (x, l, u) in v.guards(c.bb)]
                 comp = [l for (t, l) in g if t == "discr(some(Components::next(loop(iter))))"]
                 named = any(t.startswith("String::eq(some(Iter::next(loop(iter))).name, ") and l != 0 for (t, l) in g)
-                st.append((a[1], comp[-1] if comp else None, named))
+                key = a[1]
+                # `children.iter().find(|c| c.name == name)` instead of the explicit loop
+                mf = re.fullmatch(r"some\(Iter::find\(impl \[T\]::iter\(ArcSwapAny::load\(loop\(inode\)\.children\)\), closure\((\{closure#\d+\})\)\)\)\.ino", key)
+                if mf:
+                    cl_ = [x for x in F.closures_of(b.key) if x.key.endswith(mf.group(1))]
+                    if len(cl_) == 1 and vf.render(vf.VF(cl_[0], inline_depth=0).ret(), cl_[0], short=True) in ("String::eq(c.name, ^name)", "Eq(c.name, ^name)", "String::eq(child.name, ^name)"):
+                        key, named = "some(Iter::next(loop(iter))).ino", True
+                st.append((key, comp[-1] if comp else None, named))
         steps[nm] = st
         parent = [x for x in st if x[0] == "loop(inode).parent"]
         child = [x for x in st if x[0] == "some(Iter::next(loop(iter))).ino" and x[2]]
